@@ -64,3 +64,11 @@ add('C03', 'fault_enumeration', 'differential testing against an independent COS
     'Bundles signed by a real source agent (COSE_Mac0 through its transmit chain) or by an independent reference source (scopes and parameters the repository never emits) are altered field by field and bit by bit; a fresh real receiver must deliver exactly when the independent verifier (validated against the upstream interop vectors) still verifies, and otherwise record a deletion with a security reason.',
     'COSE_Mac0 with HMAC-256/384/512 only (installed pycose cannot build wrapped-key MACs; Sign1 path needs wall-clock certificate validation); bit flips judged one-directionally.',
     'DESIGN.md section 3 C03')
+add('C12', 'fault_enumeration', 'exhaustive enumeration of security-block malformations x block kind x key store x acceptance (and all good/bad pairs) + property-based combinations; strict independent verdict',
+    'Reference-built bundles whose BIB/BCB is malformed in exactly one of 19 ways (or valid in 3 ways), alone or next to a valid second security block in either order, are fed to a real destination agent; delivery, released payload, recorded deletion reason and the deletion report on the wire are compared with a strict independent verdict.',
+    'Security blocks come from the reference source (COSE_Mac0 / COSE_Encrypt0); bundles that do not decode at all are not judged.',
+    'DESIGN.md section 3 C12')
+add('C16', 'fault_enumeration', 'differential testing against an independent COSE decryptor under enumerated alterations and exhaustive ciphertext bit flips; property-based variation of plaintexts, modes, scopes and acceptance',
+    'BCBs produced by a real source agent (Encrypt0 A128/A256GCM, Encrypt with A256KW) or by the reference source are checked on the wire (ciphertext differs from plaintext, independent decryption recovers it) and after every catalogue alteration / ciphertext bit flip against a fresh real receiver, which must deliver exactly when the independent decryptor still succeeds.',
+    'AES-GCM/AES-KW primitives of the cryptography package are trusted; a fresh IV is supplied per operation.',
+    'DESIGN.md section 3 C16')
